@@ -8,7 +8,8 @@ import numpy as np
 
 from .. import kernel
 
-REPO_PKG = "/repo/pyerrors/"
+import os as _os
+REPO_PKG = _os.path.join(_os.path.realpath(_os.environ.get("VSIM_REPO", "/repo")), "pyerrors") + "/"
 
 
 # ------------------------------------------------------------------ layouts and data (plan data -> arrays)
@@ -47,6 +48,15 @@ def gen_chain(rng, ens, rname, nmin=5, nmax=64, allow_irregular=True):
                      "tau": rng.choice([0.5, 1.5, 3.0, 10.0]), "mean": rng.choice([0.0, 1.0, -2.5, 1e3, 1e-3]), "amp": rng.choice([1.0, 1.0, 0.01, 50.0])}}
 
 
+def _mkcov(name, dim):
+    rr = random.Random(kernel.H("covdef", name))
+    A = [[rr.uniform(-1, 1) for _ in range(dim)] for _ in range(dim)]
+    cov = [[sum(A[i][k] * A[j][k] for k in range(dim)) + (0.1 if i == j else 0.0) for j in range(dim)] for i in range(dim)]
+    return {"dim": dim, "means": [rr.uniform(-2, 2) for _ in range(dim)], "cov": cov}
+
+
+# one covariance matrix per name (the library rightly rejects two different matrices under one name)
+COVS = {"covA": _mkcov("covA", 2), "sys_b": _mkcov("sys_b", 1), "Zc": _mkcov("Zc", 3)}
 ENS = ["A", "B2", "ens_c", "D|x"]   # 'D|x': a name whose text after '|' does not start with r
 
 
@@ -66,12 +76,8 @@ def gen_obs_spec(rng, nens=None, nmin=5, nmax=64, allow_irregular=True, allow_co
         parts.append({"coef": rng.choice([1.0, 1.0, 0.5, -2.0, 3.25]), "chains": [gen_chain(rng, e, nm, nmin, nmax, allow_irregular) for nm in names]})
     spec = {"parts": parts}
     if allow_cov and rng.random() < 0.25:
-        dim = rng.randint(1, 3)
-        rr = random.Random(rng.getrandbits(32))
-        A = [[rr.uniform(-1, 1) for _ in range(dim)] for _ in range(dim)]
-        cov = [[sum(A[i][k] * A[j][k] for k in range(dim)) + (0.1 if i == j else 0.0) for j in range(dim)] for i in range(dim)]
-        spec["cov"] = {"name": rng.choice(["covA", "sys_b"]), "means": [rr.uniform(-2, 2) for _ in range(dim)], "cov": cov, "pos": rng.randrange(dim),
-                       "coef": rng.choice([1.0, 0.3])}
+        name = rng.choice(["covA", "sys_b"])
+        spec["cov"] = dict(COVS[name], name=name, pos=rng.randrange(COVS[name]["dim"]), coef=rng.choice([1.0, 0.3]))
     return spec
 
 
